@@ -17,6 +17,20 @@ CHECKS = {
          "'derivative' is proved over R in Proofs/BezierAnalytic.v when present; the formal-derivative theorem is generic."),
    technique='Coq theorems (ring/field over generic field) + AST translator agreement lemmas + exact-rational correspondence',
    ref='DESIGN.md §3 C03'),
+ 'C04': dict(
+   text=("Model of Arc.__init__/_parameterize line by line, point, derivative, centeriso/u1transform, as_cubic/quad_curves "
+         "(coq/Model/Arc.v). Theorems over R for ALL start!=end, non-zero radii, any rotation, all flags: on-ellipse (unconditional), "
+         "minimal radius scaling (sqrt(radius_check), necessity of the factor), sweep sign and large-arc characterisation of delta "
+         "(unconditional), |delta|<=360, affine eccentric angle, point(0)=start/point(1)=end exactly when the isclose snap is inactive "
+         "(and refuted when it is active), derivative(t,n) = n-th derivative for all n>=1 with n mod 4 != 0 (Coquelicot is_derive_n; "
+         "refuted for n mod 4 = 0), cubic/quad approximations chained from start to end (any carrier). Tie: translator agreement lemmas "
+         "for point/derivative(n=1..8)/isometries (GenAgree/Arc.v) + 120-bit bigfloat correspondence of centre/radius/theta/delta/point/"
+         "derivative; the statement is evaluated on the implementation."),
+   note=("Trusted: kernel, py2v.py, harness, BigF evaluation (unverified enclosure), libm trig as oracle. _parameterize itself and "
+         "derivative with symbolic n are tied by correspondence only. autoscale_radius=False not modelled. Branch decisions within "
+         "rounding of a threshold are counted as undecided and skipped."),
+   technique='Coq theorems over R (field/nra/Coquelicot derivatives) + translator agreement lemmas + bigfloat correspondence',
+   ref='DESIGN.md §3 C04'),
  'C05': dict(
    text=("Model coq/Model/PathIdx.v mirrors _calc_lengths/T2t/t2T/point (incl. CPython 3.12's compensated sum) and "
          "iscontinuous/continuous_subpaths. Over R, for any number of segments: T2t selects a positive-length segment with "
